@@ -194,7 +194,7 @@ impl<'w> FnTr<'w> {
                             let x = self.tr_expr(a, None)?;
                             if let RTy::Struct(sn) = &x.ty {
                                 if f.contains('.') { return Err(self.err(e, "nested field of a struct value")); }
-                                if !x.pure { return Err(self.err(e, "struct-valued argument that can panic (bind it with `let` first)")); }
+                                // (a panicking struct-valued argument is evaluated once per field read: harmless in the `Option` monad)
                                 let fty = self.world.structs[sn].fields.iter().find(|(n, _)| n == f).map(|(_, t)| t.clone()).ok_or_else(|| self.err(e, "unknown field"))?;
                                 let ty = self.struct_field_type(&fty, sn).map_err(|m| self.err(e, &m))?;
                                 if ty != p.ty { return Err(self.err(e, &format!("field `{}` has type {} in the struct value but {} in the callee", f, ty.rust(), p.ty.rust()))); }
@@ -293,7 +293,7 @@ impl<'w> FnTr<'w> {
             }
         }
         // --- `self.m(..)`: another translated function of the same container ---
-        if recv_name.as_deref() == Some("self") {
+        if recv_name.as_deref() == Some("self") && matches!(self.lookup("self").map(|v| v.ty.clone()), Some(RTy::Flat(_)) | None) {
             let ns = self.target.container.ns().map(|s| s.to_string());
             if let Some(info) = self.world.fns.get(&(ns, method.clone())).cloned() {
                 return self.call_translated(e, &info, Some(&mc.receiver), &args);
@@ -326,6 +326,13 @@ impl<'w> FnTr<'w> {
         }
         // --- mapping table on primitive receivers ---
         let recv = self.tr_expr(&mc.receiver, None)?;
+        // a value of a regenerated struct computed by an expression (`self.get_unchecked(i).get_attacks(occ)`)
+        if let RTy::Struct(sname) = &recv.ty {
+            if let Some(info) = self.world.fns.get(&(Some(sname.clone()), method.clone())).cloned() {
+                return self.call_translated(e, &info, Some(&mc.receiver), &args);
+            }
+            return Err(self.err(e, &format!("method `{}` of `{}` is neither opaque (table) nor registered for translation", method, sname)));
+        }
         let one_int_arg = |this: &mut Self, t: &RTy| -> Res<Ex> {
             if args.len() != 1 { return Err(this.err(e, "wrong number of arguments")); }
             let x = this.tr_expr(args[0], Some(t))?;
